@@ -922,7 +922,7 @@ class SourcedStateBackend(StateBackend):
         else:
             cache_states = []
 
-        pool_states = set()
+        pool_states = None
         for source in sources:
             logging.debug(f"Next show source to consider is {source}")
             source_net, source_path = source.split(":")
@@ -940,11 +940,11 @@ class SourcedStateBackend(StateBackend):
             mirror_states = cls.transport.show(source_params, object)
             pool_states = (
                 set(mirror_states)
-                if not pool_states
+                if pool_states is None
                 else pool_states.intersection(mirror_states)
             )
 
-        return list(set(cache_states).union(pool_states))
+        return list(set(cache_states).union(pool_states or set()))
 
     @classmethod
     def get(cls, params: Params, object: Any = None) -> None:
